@@ -105,6 +105,11 @@ func genHostResult(t *sim.Tape, name string, base time.Time) *results.Result {
 		res.Status = results.Status{Code: types.StatusEmpty, Message: results.ErrorNoResults.Error()}
 		res.HostsStatuses[name] = res.Status
 	}
+	if t.Chance(1, 6) {
+		// a reply without per-host statuses (the field is optional on the wire: an older or a
+		// nested querier may omit it); the merged statuses then simply have no entry for this host
+		res.HostsStatuses = nil
+	}
 	return res
 }
 
